@@ -561,6 +561,9 @@ where
             if self.repeat.again() {
                 self.file.seek(std::io::SeekFrom::Start(self.range.0))?;
                 self.left = self.range.1;
+                // A partial sample at the end of the data is not the beginning
+                // of the first sample of the next repetition.
+                self.buf.clear();
             } else {
                 return Ok(BlockRet::EOF);
             }
